@@ -9,9 +9,13 @@ package api
 
 import (
 	"fmt"
+	"math/rand"
+	"net"
 	"os"
 	"path/filepath"
+	"strings"
 	"sync"
+	"sync/atomic"
 	"time"
 
 	"github.com/go-chi/chi/v5"
@@ -28,6 +32,82 @@ import (
 func init() { logger.InitNop() }
 
 var c18ArgsMu sync.Mutex
+
+// c18Relay is a TCP relay in front of the etcd client port that delays every chunk it
+// forwards by a random time up to a per-connection maximum.  It manufactures network
+// jitter and, above all, latency asymmetry between the members (each member's etcd
+// client has its own connection), i.e. interleavings of the members' etcd requests that
+// a real deployment has and a loopback test never shows.
+type c18Relay struct {
+	ln     net.Listener
+	target string
+	conns  int64
+	maxUs  [8]int64 // per connection index (mod 8): maximum delay per forwarded chunk, microseconds
+}
+
+func c18NewRelay(target string) (*c18Relay, error) {
+	ln, err := net.Listen("tcp", "127.0.0.1:0")
+	if err != nil {
+		return nil, err
+	}
+	r := &c18Relay{ln: ln, target: target}
+	go func() {
+		for {
+			c, err := ln.Accept()
+			if err != nil {
+				return
+			}
+			idx := int(atomic.AddInt64(&r.conns, 1)-1) % len(r.maxUs)
+			go r.handle(c, idx)
+		}
+	}()
+	return r, nil
+}
+
+func (r *c18Relay) URL() string { return "http://" + r.ln.Addr().String() }
+
+func (r *c18Relay) Close() { r.ln.Close() }
+
+// SetDelays picks a maximum delay per connection slot.
+func (r *c18Relay) SetDelays(rng *rand.Rand) (out []int64) {
+	choices := []int64{0, 0, 500, 1500, 4000}
+	for i := range r.maxUs {
+		v := choices[rng.Intn(len(choices))]
+		atomic.StoreInt64(&r.maxUs[i], v)
+		out = append(out, v)
+	}
+	return
+}
+
+func (r *c18Relay) handle(c net.Conn, idx int) {
+	d, err := net.DialTimeout("tcp", r.target, 10*time.Second)
+	if err != nil {
+		c.Close()
+		return
+	}
+	pipe := func(dst, src net.Conn, seed int64) {
+		rng := rand.New(rand.NewSource(seed))
+		buf := make([]byte, 32<<10)
+		for {
+			n, err := src.Read(buf)
+			if n > 0 {
+				if m := atomic.LoadInt64(&r.maxUs[idx]); m > 0 {
+					time.Sleep(time.Duration(rng.Int63n(m+1)) * time.Microsecond)
+				}
+				if _, werr := dst.Write(buf[:n]); werr != nil {
+					break
+				}
+			}
+			if err != nil {
+				break
+			}
+		}
+		dst.Close()
+		src.Close()
+	}
+	go pipe(d, c, int64(idx)*2+1)
+	pipe(c, d, int64(idx)*2+2)
+}
 
 func c18Options(dir, name, role string, primaryPeerURLs []string) (opt *option.Options, err error) {
 	defer func() {
@@ -100,6 +180,7 @@ func c18NewCluster(opt *option.Options, wait time.Duration) (cluster.Cluster, er
 type c18Rig struct {
 	clusters []cluster.Cluster // [0] primary, [1] secondary
 	servers  []*Server
+	relay    *c18Relay
 }
 
 // c18NewServer builds a Server the way MustNewServer does, minus the listening socket
@@ -137,12 +218,20 @@ func c18StartRig(dir string) (*c18Rig, error) {
 	if err != nil {
 		return rig, err
 	}
+	// The secondary reaches etcd through the relay from the start; the relay is also what
+	// etcd advertises, so the clients' periodic endpoint sync (1 min) keeps them on it
+	// (and moves the primary's own client there as well).
+	rig.relay, err = c18NewRelay(strings.TrimPrefix(popt.Cluster.ListenClientURLs[0], "http://"))
+	if err != nil {
+		return rig, err
+	}
+	popt.Cluster.AdvertiseClientURLs = []string{rig.relay.URL()}
 	p, err := c18NewCluster(popt, 3*time.Minute)
 	if err != nil {
 		return rig, err
 	}
 	rig.clusters = append(rig.clusters, p)
-	sopt, err := c18Options(dir, "c18-api-secondary", "secondary", popt.Cluster.ListenPeerURLs)
+	sopt, err := c18Options(dir, "c18-api-secondary", "secondary", []string{rig.relay.URL()})
 	if err != nil {
 		return rig, err
 	}
@@ -168,5 +257,8 @@ func (g *c18Rig) Close() {
 	select {
 	case <-done:
 	case <-time.After(60 * time.Second):
+	}
+	if g.relay != nil {
+		g.relay.Close()
 	}
 }
